@@ -88,6 +88,10 @@ static std::string hexdec( const std::string & s ) {
 }
 
 static void done() {
+    fflush( stdout );
+    fflush( stderr );
+    std::cout.flush();
+    std::cerr.flush();
     fputs( ".\n", g_out );
     fflush( g_out );
 }
